@@ -123,6 +123,13 @@ func main() {
 		if *prop == "" {
 			return true
 		}
+		if *prop == "C08" && (ob.Kind == "post" || ob.Kind == "frame") {
+			// per-key linearizability = one atomic section per single-key operation (atomic:one-section) AND, inside
+			// it, the sequential specification of that operation: its postconditions count for C08 too
+			if c := e.contracts[ob.Fn]; c != nil && c.Flags["onesection"] != "" {
+				return true
+			}
+		}
 		return hasProp(ob.Props, *prop)
 	}
 	if *only != "" {
